@@ -146,7 +146,8 @@ fn main() {
                 2 => leaf(Q::Lit(rng.gen_range(0..20))),
                 3 => leaf(Q::V(Slot::named(["1", "x"][rng.gen_range(0..2)]))),
                 4 => leaf(Q::Num(rng.gen_range(0..20))),
-                _ => leaf(Q::Sym(Symbol::from(["foo", "a", "x1"][rng.gen_range(0..3)]))),
+                // also symbols spelled like an operator that takes arguments (D26): a bare `lam` is a symbol, not a `lam` node
+                _ => leaf(Q::Sym(Symbol::from(["foo", "a", "x1", "lam", "tag", "lit", "v"][rng.gen_range(0..7)]))),
             };
         }
         match rng.gen_range(0..4) {
